@@ -295,6 +295,19 @@ func runDeleteE2E(r *run, g *rng, base string) error {
 				dst = append(dst, d)
 			}
 		}
+		// parents are created implicitly on disk: make them explicit in the node list
+		have := map[string]bool{}
+		for _, d := range dst {
+			have[d.path] = true
+		}
+		for _, d := range append([]tnode{}, dst...) {
+			for par := filepath.Dir(d.path); par != "."; par = filepath.Dir(par) {
+				if !have[par] {
+					have[par] = true
+					dst = append(dst, tnode{par, "d"})
+				}
+			}
+		}
 		arr := []string{"pull", "push", "local"}[i%3]
 		args := []string{"-a", "--delete"}
 		var rules []string
@@ -308,6 +321,7 @@ func runDeleteE2E(r *run, g *rng, base string) error {
 		withDelete := !g.chance(12)
 		if !withDelete {
 			args = []string{"-a"}
+			rules = nil
 		}
 		ioErr := g.chance(10) && arr != "pull"
 		id := fmt.Sprintf("dele2e%d-%s", i, arr)
@@ -316,6 +330,21 @@ func runDeleteE2E(r *run, g *rng, base string) error {
 		materialiseNodes(srcRoot, srcNodes)
 		materialiseNodes(dest, dst)
 		before := listPaths(dest)
+		// what is really on disk is the prior state (entries under a non-directory cannot be created)
+		dst = dst[:0]
+		for _, p := range before {
+			fi, err := os.Lstat(filepath.Join(dest, p))
+			if err != nil {
+				continue
+			}
+			typ := "f"
+			if fi.IsDir() {
+				typ = "d"
+			} else if !fi.Mode().IsRegular() {
+				typ = "o"
+			}
+			dst = append(dst, tnode{p, typ})
+		}
 		spec := sessionSpec{ID: id, Arr: arr, Args: args, SrcRoot: srcRoot, Srcs: []string{""}, Dest: dest, TimeoutMs: 60000}
 		if ioErr {
 			// a source argument that does not exist: the sender's walk reports an error and sets the I/O-error flag
@@ -323,6 +352,17 @@ func runDeleteE2E(r *run, g *rng, base string) error {
 		}
 		res := pool.run(spec)
 		after := listPaths(dest)
+		// a directory in the way of a non-directory (or vice versa) is outside this property's domain
+		conflict := false
+		for _, d := range dst {
+			if t, ok := byPath[d.path]; ok && t != d.typ && (t == "d" || d.typ == "d") {
+				conflict = true
+			}
+		}
+		if conflict {
+			r.count("e2e/type-conflict-skipped")
+			continue
+		}
 		r.count(fmt.Sprintf("e2e/%s/%s/ioerr=%v", arr, res.Outcome, ioErr))
 		detail := map[string]any{"arr": arr, "args": args, "src": nodes2str(srcNodes), "dst_before": before, "dst_after": after, "err": res.Err}
 		if res.Outcome != "ok" {
@@ -357,17 +397,6 @@ func runDeleteE2E(r *run, g *rng, base string) error {
 		}
 		for _, p := range old {
 			want[p] = true
-		}
-		// type conflicts (file <-> directory) change what lies below: compare only when no conflict exists
-		conflict := false
-		for _, d := range dst {
-			if t, ok := byPath[d.path]; ok && t != d.typ && (t == "d" || d.typ == "d") {
-				conflict = true
-			}
-		}
-		if conflict {
-			r.count("e2e/type-conflict-skipped")
-			continue
 		}
 		var wl []string
 		for p := range want {
